@@ -7,6 +7,15 @@ VERIF = os.path.dirname(os.path.dirname(os.path.abspath(__file__)))
 
 # id -> (technique, level text, level note, design ref)
 CHECKS = {
+    "C01": ("differential oracle VM vs WASM over generated + shipped + mutated programs (outputs, accept/reject, state words), hostile dsp inputs",
+            "Runs every case on both back ends through the CLI's own code path and compares accept/reject, channel counts, every output word bitwise, return codes and flat state words after every sample; cases come from a typed program generator (all features, NaN/inf/-0/subnormal inputs), the shipped sources and operator/constant mutations of them. Held on what was observed; disagreement classes already triaged are listed as known findings and kept out of general exploration by named generator quarantines.",
+            "Trusts the harness runners (same call sequence as mimium-cli::run_file) and the dynamic quarantine predicate evaluated by the reference interpreter.", "DESIGN.md §3 C01"),
+    "C02": ("reference-interpreter oracle: generated well-typed core programs run on VM and WASM and compared bitwise with an independent executable semantics; witnesses minimised by a G-AST shrinker",
+            "An independent interpreter over the generator's own AST (per-textual-call-site zero-initialised state, call by value, left to right) is the executable statement of the property; both back ends must reproduce its output stream bit for bit on thousands of generated programs and input streams.",
+            "Trusts the reference interpreter (harness/src/refsem, ~450 lines, shares no code with the compiler) and Rust f64 arithmetic; lambdas/function values are stateless by construction; situations the statement leaves open (NaN as truth value, delay time outside 1..n-1) are detected on the reference execution and not judged.", "DESIGN.md §3 C02"),
+    "C03": ("process-outcome + hook-assertion monitor: type-checked programs (generated, near-miss mutants, shipped, mutated) compiled and run on both back ends with bounds assertions at the VM's unchecked access sites and a logical instruction budget",
+            "Every case is compiled for VM and WASM and runs main + n dsp calls in a supervised worker with cfg-guarded assertions before every unchecked state/global/upvalue/closure/delay-size access; panics, aborts (attributed by the supervisor), step-budget overruns, WASM traps, invalid modules and wrong dsp word counts refute the property. Sanitizer reruns (valgrind / ASan) of the same workload are available through tools/.",
+            "Observes only the hooked sites and whatever panics; WASM memory safety is wasmtime's sandbox; n <= 64 dsp calls in quick.", "DESIGN.md §3 C03"),
     "C08": ("structural oracle over real patch plans on exhaustively enumerated + edit-script-derived layout pairs (tagged storage)",
             "Runs the real build_state_storage_patch_plan/apply_state_storage_patch_plan on every ordered pair of layouts up to a node bound and on edit-script pairs, and checks every clause of the property on the returned plan and on uniquely tagged migrated storage. Exhaustive within the bound, sampled beyond it; nothing is modelled.",
             "Trusts the harness' own prefix-sum layout walk and tree-inclusion checker; u64 sizes stand in for StateType.", "DESIGN.md §3 C08"),
